@@ -304,5 +304,5 @@ def shrink_candidates(case):
 
 
 def label_requirements(tier: str) -> Dict[str, Any]:
-    return {"kind:launch": 0.1, "kind:single": 0.3, "failing": 0.2, "succeeding": 0.2, "mode:dir": 0.03, "prefix": 0.3,
+    return {"kind:launch": 0.1, "kind:single": 0.3, "failing": 0.2, "succeeding": 0.2, "mode:dir": 0.03, "prefix": 0.1,
             "order:permutation": 0.1, "order:interleaving": 0.1, "order:subset_permutation": 0.1}
